@@ -363,6 +363,87 @@ func CheckC18Name(c C18Name, rec *Rec) error {
 	return nil
 }
 
+/* ---- call sequences on the shared activator table: every request is answered on its own merits ---- */
+
+type C18Call struct {
+	Module bool    `json:"module"` // ActivateModuleByType instead of ActivateByType
+	Code   int     `json:"code"`
+	X      float64 `json:"x"`
+}
+
+type C18Calls struct {
+	Calls []C18Call `json:"calls"`
+}
+
+func GenC18Calls() *rapid.Generator[C18Calls] {
+	return rapid.Custom(func(t *rapid.T) C18Calls {
+		var c C18Calls
+		n := rapid.IntRange(2, 8).Draw(t, "calls")
+		last := 0
+		for i := 0; i < n; i++ {
+			call := C18Call{Module: rapid.IntRange(0, 3).Draw(t, "module call") == 0, X: rapid.Float64Range(-4, 4).Draw(t, "x")}
+			switch rapid.IntRange(0, 3).Draw(t, "code kind") {
+			case 0:
+				call.Code = rapid.IntRange(1, 23).Draw(t, "registered")
+			case 1:
+				call.Code = rapid.SampledFrom([]int{0, 24, 25, 100, 255}).Draw(t, "unregistered")
+			case 2:
+				call.Code = last // the same request again
+			default:
+				call.Code = rapid.IntRange(0, 30).Draw(t, "any")
+			}
+			last = call.Code
+			c.Calls = append(c.Calls, call)
+		}
+		return c
+	})
+}
+
+func CheckC18Calls(c C18Calls, rec *Rec) error {
+	refused := 0
+	for i, call := range c.Calls {
+		typ := neatmath.NodeActivationType(call.Code)
+		ref, scalar := actRefs[call.Code]
+		_, module := moduleNames[call.Code]
+		where := fmt.Sprintf("call %d of %v", i, c.Calls)
+		if call.Module {
+			out, err := neatmath.NodeActivators.ActivateModuleByType([]float64{call.X}, nil, typ)
+			if module {
+				if err != nil || len(out) != 1 || !sameFloat(out[0], call.X) {
+					return fmt.Errorf("%s: %s([%v]) = (%v, %v), expected [%v]", where, moduleNames[call.Code], call.X, out, err, call.X)
+				}
+			} else {
+				if err == nil {
+					return fmt.Errorf("%s: module activation with the type code %d (not a module type) returned %v instead of an error", where, call.Code, out)
+				}
+				refused++
+			}
+			continue
+		}
+		out, err := neatmath.NodeActivators.ActivateByType(call.X, nil, typ)
+		if scalar {
+			want := ref.f(call.X)
+			if err != nil || math.IsNaN(out) || math.Abs(out-want) > 1e-12*(1+math.Abs(want)) {
+				return fmt.Errorf("%s: %s(%v) = (%v, %v), definition gives %v", where, ref.name, call.X, out, err, want)
+			}
+		} else {
+			if err == nil {
+				return fmt.Errorf("%s: activation with the type code %d (not a scalar activation) returned %v instead of an error", where, call.Code, out)
+			}
+			refused++
+		}
+	}
+	if refused >= 2 {
+		rec.Class("several refused requests in one sequence")
+	}
+	rec.NonTrivial(hashOf(fmt.Sprint(c.Calls)))
+	return nil
+}
+
+func TestC18Calls(t *testing.T) {
+	runProp(t, "C18", "calls", 10000, 200000, GenC18Calls(), CheckC18Calls)
+}
+
 func TestC18Scalar(t *testing.T) {
 	runProp(t, "C18", "scalar", 60000, 1500000, GenC18Scalar(), CheckC18Scalar)
 }
@@ -379,4 +460,5 @@ func init() {
 	registerReplay("C18", "scalar", CheckC18Scalar)
 	registerReplay("C18", "module", CheckC18Module)
 	registerReplay("C18", "name", CheckC18Name)
+	registerReplay("C18", "calls", CheckC18Calls)
 }
